@@ -8,8 +8,15 @@ All random choices come from one `random.Random(seed)`.
 import itertools, json, random
 
 # ------------------------------------------------------------------ leaf types (see PRELUDE)
+INTO_TYPES = ["A8", "B8", "X16", "X32"]          # type ids used by the Into model
+INTO_CONV = [("A8", "X16"), ("B8", "X16"), ("X32", "X16"), ("A8", "X32"), ("B8", "X32"), ("X16", "X32")]
+
 # name -> (domain size, traits implemented)
 LEAVES = {
+    "A8": {"n": 3, "traits": {"PartialEq", "Clone", "Copy", "Debug"}, "plain": True},
+    "B8": {"n": 3, "traits": {"PartialEq", "Clone", "Copy", "Debug"}, "plain": True},
+    "X16": {"n": 3, "traits": {"PartialEq", "Clone", "Copy", "Debug"}, "plain": True},
+    "X32": {"n": 3, "traits": {"PartialEq", "Clone", "Copy", "Debug"}, "plain": True},
     "L": {"n": 3, "traits": {"PartialEq", "Eq", "PartialOrd", "Ord", "Hash", "Clone", "Copy", "Debug", "Default"}},
     "F": {"n": 3, "traits": {"PartialEq", "PartialOrd", "Clone", "Copy", "Debug", "Default"}},   # 2 = NaN
     "S": {"n": 3, "traits": {"PartialEq", "Eq", "PartialOrd", "Ord", "Hash", "Clone", "Debug", "Default"}},
@@ -74,6 +81,20 @@ pub mod prelude {
     impl Leaf for Zst { const N: usize = 1; fn d(_: usize) -> Zst { Zst } fn id(&self) -> usize { 0 } }
     impl Leaf for u8 { const N: usize = 3; fn d(i: usize) -> u8 { [0u8, 100, 200][i] } fn id(&self) -> usize { (*self / 100) as usize } }
 
+    // C10: source / target types whose conversions are all distinguishable
+    macro_rules! numleaf { ($($t:ident),*) => { $(
+        #[derive(Clone, Copy, Debug, PartialEq)] pub struct $t(pub u32);
+        impl Leaf for $t { const N: usize = 3; fn d(i: usize) -> $t { $t(i as u32) } fn id(&self) -> usize { self.0 as usize } }
+    )* } }
+    numleaf!(A8, B8, X16, X32);
+    impl From<A8> for X16 { fn from(a: A8) -> X16 { X16(1000 + a.0) } }
+    impl From<B8> for X16 { fn from(a: B8) -> X16 { X16(2000 + a.0) } }
+    impl From<X32> for X16 { fn from(a: X32) -> X16 { X16(6000 + a.0) } }
+    impl From<A8> for X32 { fn from(a: A8) -> X32 { X32(3000 + a.0) } }
+    impl From<B8> for X32 { fn from(a: B8) -> X32 { X32(4000 + a.0) } }
+    impl From<X16> for X32 { fn from(a: X16) -> X32 { X32(5000 + a.0) } }
+    pub fn m_x16<X: Leaf>(x: X) -> X16 { X16(7000 + x.id() as u32) }
+    pub fn m_x32<X: Leaf>(x: X) -> X32 { X32(8000 + x.id() as u32) }
     pub static LS: [[L; 3]; 8] = [[L(0), L(1), L(2)]; 8];
     pub static CALLS: core::sync::atomic::AtomicUsize = core::sync::atomic::AtomicUsize::new(0);
     pub fn calls_reset() { CALLS.store(0, core::sync::atomic::Ordering::SeqCst); }
@@ -162,7 +183,15 @@ METHOD_LEAVES = ["L", "F", "S", "K"]
 def leaf_table_code():
     """Rust statements printing the measured leaf tables (relations, hash writes, methods)."""
     out = []
+    for a, b in INTO_CONV:
+        out.append(f'''
+    for i in 0..3 {{ let r: {b} = Into::into(<{a} as Leaf>::d(i));
+        println!("[\\"conv\\",{INTO_TYPES.index(a)},{INTO_TYPES.index(b)},{{}},{{}}]", i, r.0); }}''')
+    out.append('''
+    for i in 0..7000usize { println!("[\\"methv\\",\\"into\\",0,{},{}]", i, 7000 + i); println!("[\\"methv\\",\\"into\\",1,{},{}]", i, 8000 + i); if i >= 2 { break; } }''')
     for ty, info in LEAVES.items():
+        if info.get("plain"):
+            continue
         n = info["n"]
         tr = info["traits"]
         mid = METHOD_LEAVES.index(ty) if ty in METHOD_LEAVES else None
